@@ -529,11 +529,11 @@ pub fn gen_op(r: &mut Rng, prof: Profile, kind: char, view: &GenView) -> Op {
             }
         }
         "drain_filter" => {
-            op.ans = answers(r, len + r.below(2) as usize);
+            { let extra = r.below(2) as usize; op.ans = answers(r, len + extra); }
             op.take = if r.chance(1, 3) { 0 } else { r.below(len as u64 + 2) as usize };
             op.forget = r.chance(1, 10);
         }
-        "retain" => op.ans = answers(r, len + r.below(2) as usize),
+        "retain" => { let extra = r.below(2) as usize; op.ans = answers(r, len + extra); }
         "dedup_by" => op.ans = answers(r, len),
         "dedup_by_key" => op.m = r.pick(&[1u32, 2, 3, 7]),
         "reserve" | "reserve_exact" | "try_reserve" | "try_reserve_exact" => {
@@ -542,7 +542,7 @@ pub fn gen_op(r: &mut Rng, prof: Profile, kind: char, view: &GenView) -> Op {
             } else if name.starts_with("try_") && r.chance(1, 8) {
                 1 << 44 // a valid layout the arena cannot serve: Err(AllocErr), nothing changes
             } else if wild && r.chance(1, 6) {
-                usize::MAX - len + r.below(2) as usize
+                (usize::MAX - len).saturating_add(r.below(2) as usize)
             } else {
                 r.below(24) as usize
             };
